@@ -76,6 +76,7 @@ var alphaCore = []string{
 	"jal ra, mid",
 	"ret",
 	"lw t3, 192(zero)\nbnez t3, end",
+	"lw t3, 192(zero)\nbnez t3, mid",
 }
 
 const epilogue = "end:\naddi t2, t0, 1\nsw t2, 128(zero)"
@@ -125,7 +126,7 @@ var c01Suite = &pxSuite{
 	Programs:   c01Programs,
 	Violates:   func(class string) bool { return class != "ok" && class != "cycle-bound" },
 	Nontrivial: nontrivialGeneral,
-	Rule:       "PX: every program of length <= 2 (quick) / <= 3 (thorough) over the 37-template general alphabet and of length 3 / 4 over the 17-template core alphabet (ALU incl. rd=rs aliases, lw/lb/lh/sw/sb/sh on lines 0 and 64, beq/bne/blt/bge/bltu/j/jal/jalr/ret to `mid`/`end`, two-iteration loop macros, a late-resolving branch fed by a missing load, a subroutine called from two sites, a duplicated source register), fixed epilogue, x 2 initial states (thorough: 4 up to length 2, 2 for length 3, 1 for the length-4 core) x 33 configurations (12 variants, parallelism 1..4); oracle = sequential reference (registers x1..x31, whole memory, no error); non-trivial = distinct programs whose reference trace has a register dependence within two instructions, a taken branch, or more than one memory access (the epilogue stores once)",
+	Rule:       "PX: every program of length <= 2 (quick) / <= 3 (thorough) over the 37-template general alphabet and of length 3 / 4 over the 18-template core alphabet (ALU incl. rd=rs aliases, lw/lb/lh/sw/sb/sh on lines 0 and 64, beq/bne/blt/bge/bltu/j/jal/jalr/ret to `mid`/`end`, two-iteration loop macros, a late-resolving branch fed by a missing load, a subroutine called from two sites, a duplicated source register), fixed epilogue, x 2 initial states (thorough: 4 up to length 2, 2 for length 3, 1 for the length-4 core) x 33 configurations (12 variants, parallelism 1..4); oracle = sequential reference (registers x1..x31, whole memory, no error); non-trivial = distinct programs whose reference trace has a register dependence within two instructions, a taken branch, or more than one memory access (the epilogue stores once)",
 }
 
 func init() {
